@@ -14,8 +14,15 @@ Proof. exact fs_idempotent. Qed.
 Theorem C05_pacman_reapply_is_noop : forall p s,
   known_sync_dependency p (pdb s) = false ->
   let d' := pdb (snd (pacman p false s)) in
-  to_install p d' = [] /\ to_remove p d' = [] /\ upgradable d' = andb (upgradable (pdb s)) (negb (pp_upgrade p)).
+  to_install p d' = [] /\ to_remove p d' = [] /\ (pp_upgrade p = true -> upgradable d' = false).
 Proof. exact pacman_idempotent. Qed.
+(* ... and the identical task run again reports ok and leaves package sets, installed level and
+   sync database exactly as the first run left them (refresh-then-query order matters here) *)
+Theorem C05_pacman_second_run_reports_ok_and_changes_nothing : forall p s,
+  known_sync_dependency p (pdb s) = false ->
+  let s1 := snd (pacman p false s) in
+  pr_changed (fst (pacman p false s1)) = false /\ pdb (snd (pacman p false s1)) = pdb s1.
+Proof. exact pacman_second_run. Qed.
 
 (* a second pass over a sequence whose tasks are all stable in the reached world does nothing *)
 Theorem C05_pass_of_stable_tasks_is_noop : forall e ts w l,
